@@ -16,9 +16,26 @@ EITHER zones (documented nowhere, therefore not asserted):
   * reduce_to_site_topology + filter_sites: a second simplify sees fewer site positions, so row-level
     idempotence is not claimed there (the second result is still checked semantically);
   * keep_input_roots: the extra root edges are flushed separately, so adjacent (parent, child) edges may
-    stay unsquashed; squashing is asserted only without keep_input_roots.
+    stay unsquashed when the parent is one of those extra input roots; squashing is asserted for every other
+    parent;
+  * a refused call (bad samples, both unary options, migrations, edge metadata): whether the TableCollection
+    is left untouched is not documented and not asserted;
+  * which exception class a malformed ``samples`` argument raises (TypeError / ValueError / OverflowError /
+    LibraryError are all accepted) - only "does not silently simplify something else" is asserted.
+
+Entry points and argument forms driven (AUDIT-C04.md): TableCollection.simplify on a fresh / indexed / copied /
+pickled / file-loaded collection and on the SAME object twice, TreeSequence.simplify on a fresh / file-loaded
+tree sequence, the low-level _tskit.TableCollection.simplify; samples as list / tuple / int32 / int64 / uint32 /
+strided array / list of numpy scalars / positional / keyword; options spelled out, omitted or None when they have
+their documented default; record_provenance True / False / omitted; deprecated filter_zero_mutation_sites.
+The trees of the returned tree sequence (not only its tables) are compared with the output rows.
 """
 import itertools
+import json
+import os
+import pickle
+import tempfile
+import warnings
 
 import numpy as np
 import tskit
@@ -26,7 +43,9 @@ import tskit
 from lib import gen
 from lib.harness import case_rng
 from lib.model import NODE_IS_SAMPLE, NULL, RowModel, allele_at, forest, mutation_parents
-from lib.tsk import from_tables, to_tables
+from lib.props import c04_gen
+from lib.tsk import from_tables
+from lib.tsk import to_tables as _to_tables_plain
 
 ID = "C04"
 
